@@ -29,7 +29,7 @@ def main():
         sd = os.path.join(ROOT, "seeded")
         for d in sorted(os.listdir(sd)) if os.path.isdir(sd) else []:
             meta = json.load(open(os.path.join(sd, d, "meta.json")))
-            items.append({"name": d, "expected": meta["expected_checks"], "patch": os.path.join(sd, d, "patch.diff")})
+            items.append({"name": d, "expected": meta["expected_checks"], "patch": os.path.join(sd, d, "patch.diff"), "tier": meta.get("needs_tier")})
     elif a.benign:
         for m in json.load(open(os.path.join(HERE, "benign", "index.json"))):
             items.append({"name": m["name"], "expected": [], "patch": os.path.join(HERE, "benign", m["name"] + ".diff")})
@@ -60,9 +60,10 @@ def main():
                 if a.skip_slow and c in ("C14", "C15") and c not in it["expected"]:
                     continue
                 t0 = time.time()
-                rc, out = sh(["/venv/bin/python", os.path.join(ROOT, "check.py"), c, "--tier", a.tier, "--no-evidence"], env)
+                tier = it.get("tier") if (it.get("tier") and c in it["expected"]) else a.tier
+                rc, out = sh(["/venv/bin/python", os.path.join(ROOT, "check.py"), c, "--tier", tier, "--no-evidence"], env)
                 first = next((l for l in out.splitlines() if l.startswith("  monitor=")), "")
-                rec["checks"][c] = {"rc": rc, "verdict": {0: "held", 1: "VIOLATION", 2: "inconclusive"}.get(rc, str(rc)), "first": first.strip()[:200], "wall_s": round(time.time() - t0, 1)}
+                rec["checks"][c] = {"rc": rc, "verdict": {0: "held", 1: "VIOLATION", 2: "inconclusive"}.get(rc, str(rc)), "first": first.strip()[:200], "wall_s": round(time.time() - t0, 1), "tier": tier}
             rec["caught_by"] = [c for c, v in rec["checks"].items() if v["rc"] == 1]
         finally:
             subprocess.run(["git", "-C", "/repo", "worktree", "remove", "--force", wt])
